@@ -600,7 +600,11 @@ func c10Outbound(r *vfRun) {
 			}
 			slot++
 		case "readat", "writeat", "truncate":
-			steps = append(steps, step{op: vfOp{K: "open", P: "/f0", H: slot, A: int64(os.O_RDWR)}, setup: true})
+			oflag := int64(os.O_RDWR)
+			if op.K == "readat" && op.B&1 == 1 {
+				oflag = int64(os.O_RDONLY) // a read-only handle is served through Fileread, a read-write one through OpenFile
+			}
+			steps = append(steps, step{op: vfOp{K: "open", P: "/f0", H: slot, A: oflag}, setup: true})
 			switch op.K {
 			case "readat":
 				s.op, s.handler = vfOp{K: "readat", H: slot, Off: 3, N: 5}, "ReadAt"
